@@ -269,6 +269,19 @@ def announce_and_exit(path, code):
     os._exit(code)
 
 
+def die_at_start(path):
+    """pool initializer: while the counter in `path` is positive, count it down and die"""
+    try:
+        n = int(open(path).read().strip() or 0)
+    except (OSError, ValueError):
+        n = 0
+    if n > 0:
+        with open(path + '.tmp', 'w') as fh:
+            fh.write(str(n - 1))
+        os.replace(path + '.tmp', path)
+        os._exit(3)
+
+
 def pid_task(x, d=0.02):
     time.sleep(d)
     return (os.getpid(), x)
